@@ -403,5 +403,41 @@ theorem llMultinom_gibbs_aux (lgam : ℝ → ℝ) (hg : lgam 1 = 0) (M D : MSpec
     have h0 : p.2 = 0 := le_antisymm (by simpa using hq0) (hd p hp)
     simp [pterm, h0, hg]
 
+/-! ### the closed form of `ll_multinom` -/
+
+theorem llMultinom_closed_aux (lgam : ℝ → ℝ) (M D : MSpec ℝ)
+    (hc : CornerOK (effModel M D).cells D.cells)
+    (hm : ∀ p ∈ joint (effModel M D).cells D.cells, 0 < p.1)
+    (hD : 0 < sumD (joint (effModel M D).cells D.cells)) :
+    (llMultinom Real.log lgam M D).val
+      = (ll Real.log lgam M D).val
+        + sumD (joint (effModel M D).cells D.cells)
+            * Real.log (sumD (joint (effModel M D).cells D.cells) / sumM (joint (effModel M D).cells D.cells))
+        - (sumD (joint (effModel M D).cells D.cells) / sumM (joint (effModel M D).cells D.cells) - 1)
+            * sumM (joint (effModel M D).cells D.cells) := by
+  have hne := ne_nil_of_sumD_pos _ hD
+  have hM := sumM_pos _ hm hne
+  rw [llMultinom_val Real.log lgam M D hc hne, ll_val, filter_pos_scaled _ _ (div_pos hD hM) hm, List.map_map,
+    List.filter_eq_self.mpr (fun p hp => by simpa using hm p hp)]
+  exact sum_pterm_scaled_closed lgam _ _ (div_pos hD hM) hm
+
+/-- the closed form evaluated with each spectrum's OWN mask (`data.sum()`, `model.sum()` of the two masked arrays), as a
+    re-implementation that skips `ll_multinom_per_bin` would compute it -/
+def closedFormOwn (lgam : ℝ → ℝ) (M D : MSpec ℝ) : ℝ :=
+  (ll Real.log lgam M D).val + (maSum D.cells).val * Real.log (optimalScaling M D).val
+    - ((optimalScaling M D).val - 1) * (maSum (effModel M D).cells).val
+
+theorem closedFormOwn_eq_of_masks_eq (lgam : ℝ → ℝ) (M D : MSpec ℝ)
+    (he : (effModel M D).cells.map Cell.mask = D.cells.map Cell.mask)
+    (hm : ∀ p ∈ joint (effModel M D).cells D.cells, 0 < p.1)
+    (hD : 0 < sumD (joint (effModel M D).cells D.cells)) :
+    closedFormOwn lgam M D = (llMultinom Real.log lgam M D).val := by
+  have hc : CornerOK (effModel M D).cells D.cells := Or.inr (Or.inl he)
+  obtain ⟨v1, v2⟩ := vis_eq_masks _ _ he
+  rw [llMultinom_closed_aux lgam M D hc hm hD]
+  unfold closedFormOwn
+  rw [optimalScaling_eq, theta_val _ _ hc, maSum_val, maSum_val, v1, v2]
+  rfl
+
 end
 end DadiVerif.Lik
